@@ -20,3 +20,6 @@ def rules(ctx):
     S.c02_r1_register_atomic(ctx)
     S.c02_r2_register_before_root(ctx)
     S.c08_r8_flush_keeps_page(ctx)
+    S.c12_db_rules(ctx)
+    S.c02_r7_pending_pins(ctx)
+    S.refcount_rules(ctx)
